@@ -15,10 +15,13 @@ them through the public API after every operation.
 
 from __future__ import annotations
 
-import functools
 import itertools
 
+from crosshair.tracers import NoTracing
+
 from lib.runner import Spec, mk_source
+from streamflow.core.workflow import Token
+from streamflow.recovery.utils import DirectedAcyclicGraph, DirectedGraph, GraphMapper, ProvenanceToken
 
 LEVEL = "other"
 EXPLANATION = (
@@ -37,8 +40,14 @@ ASSUMPTIONS = [
     "remove_nodes request lists have no duplicates; replace(x, x) is outside the claim",
     "replace(old, new) with `new` already present must raise ValueError (tests/test_recovery_utils.py::test_replace) and must leave the graph as it was",
     "the returned list of removed nodes is compared as a set (order and multiplicity are not fixed by the statement)",
-    "GraphMapper layer: every token lives on its own port with its own tag (get_equal_token never merges), tokens are plain Token objects with a persistent_id; "
+    "GraphMapper layer: token t lives on its own port 'p<t>' with its own tag, tokens are plain Token objects with persistent ids >= 1, none available initially; "
+    "replace_token / add(available instance) use a new instance with the same port and tag and a fresh id; an instance that is already available is kept by "
+    "GraphMapper.add (modelled as a no-op); an operation on a token that has been dropped from the provenance graph is outside the claim; "
     "only dag_tokens (against the reference) and the successor/predecessor mirror of dcg_ports are asserted, not the bookkeeping dictionaries",
+    "solver-side stub: CrossHair's replacement of the `set` constructor (a lazily combined linear-scan set meant for symbolic members) is bypassed for `set()` and "
+    "`set(<concrete ints/strs>)`, which build the built-in set; node ids and port names are always concrete here (only adjacency bits and flags are symbolic, "
+    "and they are branched on, never stored)",
+    "the reference model and the comparisons handle only concrete values and run with the CrossHair tracer switched off; every call into streamflow runs under the tracer",
 ]
 
 T_DG = (
@@ -67,15 +76,51 @@ T_MAP = (
     "streamflow.recovery.utils.DirectedAcyclicGraph.promote_to_source",
 )
 
-# ---------------------------------------------------------------- reference model
+# ---------------------------------------------------------------- solver-side set model for concrete ids
+
+
+def _concrete_sets() -> None:
+    """CrossHair replaces every `set(...)` call by a lazily combined linear-scan set (so that unhashable symbolic
+    members work); each add/discard nests one more layer and a 4-node graph costs ~1 ms per API call. Every node id in
+    this harness is a concrete int (port names: concrete str), for which the built-in set has exactly the semantics
+    CrossHair models, so `set()` / `set(<concrete ints/strs>)` build the built-in set; anything else falls through to
+    CrossHair's model."""
+    import crosshair.core as core
+
+    orig = core._PATCH_REGISTRATIONS.get(set)
+    if orig is None or orig.__name__ == "_concrete_set":
+        return
+
+    def _concrete_set(*a):
+        with NoTracing():
+            if not a:
+                return set()
+            if len(a) == 1 and type(a[0]) in _PLAIN and all(type(x) in (int, str) for x in a[0]):
+                return set(a[0])
+        return orig(*a)
+
+    core._PATCH_REGISTRATIONS[set] = _concrete_set
+
+
+_PLAIN = (set, frozenset, list, tuple, type({}.keys()))
+_concrete_sets()
+
+# ---------------------------------------------------------------- reference model (concrete, runs untraced)
+
+
+def _s(items=()):
+    """A NATIVE set of concrete node ids. (Under CrossHair a call to `set(...)` builds a lazily combined,
+    symbolic-capable set whose cost grows with every mutation; a comprehension over concrete items stays native.
+    Results of the real code are copied with _s before they are compared.)"""
+    return {x for x in items}
 
 
 class Ref:
     """A plain graph: a set of nodes and a set of (u, v) edges."""
 
     def __init__(self):
-        self.nodes = set()
-        self.edges = set()
+        self.nodes = _s()
+        self.edges = _s()
 
     def add(self, u, v=None):
         self.nodes.add(u)
@@ -92,7 +137,7 @@ class Ref:
     def remove(self, requested, prune):
         """requested nodes plus, when pruning, every node whose successors were
         non-empty and have all been removed (transitively). Returns the removed set."""
-        dead = set(requested)
+        dead = _s(requested)
         grow = True if prune else False
         while grow:
             grow = False
@@ -101,64 +146,30 @@ class Ref:
                 if s and s <= dead:
                     dead.add(p)
                     grow = True
-        self.nodes -= dead
+        self.nodes = self.nodes - dead
         self.edges = {(u, v) for (u, v) in self.edges if u not in dead and v not in dead}
         return dead
 
     def replace(self, old, new):
-        self.nodes.remove(old)
-        self.nodes.add(new)
+        self.nodes = {new if u == old else u for u in self.nodes}
         self.edges = {(new if u == old else u, new if v == old else v) for (u, v) in self.edges}
 
     def promote(self, n):
         """drop the in-edges of n, then the parents left without successors die (pruning)."""
         parents = self.pred(n)
-        self.edges -= {(p, n) for p in parents}
+        self.edges = {(u, v) for (u, v) in self.edges if v != n}
         return self.remove({p for p in parents if not self.succ(p)}, True)
 
     def reaches(self, a, b):
-        seen, todo = set(), [a]
+        seen, todo = [], [a]
         while todo:
             x = todo.pop()
             if x == b:
                 return True
             if x not in seen:
-                seen.add(x)
+                seen.append(x)
                 todo.extend(self.succ(x))
         return False
-
-
-# ---------------------------------------------------------------- comparison through the public API
-
-
-def _same(g, ref, dag) -> bool:
-    nodes = g.get_nodes()
-    if nodes != ref.nodes:
-        return False
-    ind, outd = g.in_degree(), g.out_degree()
-    if set(ind.keys()) != ref.nodes or set(outd.keys()) != ref.nodes:
-        return False
-    for n in ref.nodes:
-        s, p = g.successors(n), g.predecessors(n)
-        if s != ref.succ(n) or p != ref.pred(n):
-            return False
-        if ind[n] != len(p) or outd[n] != len(s):
-            return False
-        # the two views mirror each other (asked from the real object alone)
-        for m in s:
-            if not g.contains(m) or n not in g.predecessors(m):
-                return False
-        for m in p:
-            if not g.contains(m) or n not in g.successors(m):
-                return False
-    if g.empty() != (len(ref.nodes) == 0):
-        return False
-    if dag:
-        if g.get_sources() != {n for n in ref.nodes if not ref.pred(n)}:
-            return False
-        if g.get_sinks() != {n for n in ref.nodes if not ref.succ(n)}:
-            return False
-    return True
 
 
 def _edge_pairs(fam, n):
@@ -167,19 +178,14 @@ def _edge_pairs(fam, n):
     return [(i, j) for i in range(n) for j in range(n) if i != j]
 
 
-def _build(fam, n, bits):
-    from streamflow.recovery.utils import DirectedAcyclicGraph, DirectedGraph
-
-    g = DirectedAcyclicGraph("g") if fam == "dag" else DirectedGraph("g")
+def _build_ref(fam, n, bits):
     ref = Ref()
     for i in range(n):
-        g.add(i)
         ref.add(i)
     for (i, j), b in zip(_edge_pairs(fam, n), bits):
         if b:
-            g.add(i, j)
             ref.add(i, j)
-    return g, ref
+    return ref
 
 
 def _applicable(ref, op, dag) -> bool:
@@ -191,70 +197,135 @@ def _applicable(ref, op, dag) -> bool:
         return True
     if k == "rm":
         return all(a in ref.nodes for a in op[1])
-    if k == "rep":
-        return op[1] in ref.nodes
-    if k == "prom":
+    if k in ("rep", "prom"):
         return op[1] in ref.nodes
     raise AssertionError(op)
 
 
-def _step(g, ref, op, prune, check=True) -> bool:
-    """Run one operation on the real graph and on the reference; compare results."""
+def _ref_step(ref, op, prune):
+    """Expected observation of one operation (same shape as _real_step returns)."""
     k = op[0]
     if k == "add":
-        if len(op) == 2:
-            r = g.add(op[1])
-            ref.add(op[1])
-        else:
-            r = g.add(op[1], op[2])
-            ref.add(op[1], op[2])
-        return r is None
+        ref.add(*op[1:])
+        return ("none",)
     if k == "rm":
-        if len(op[1]) == 1:
-            got = g.remove_node(op[1][0], prune_dead_end=prune)
-        else:
-            got = g.remove_nodes(list(op[1]), prune_dead_end=prune)
-        want = ref.remove(op[1], prune)
-        return set(got) == want
+        return ("removed", ref.remove(op[1], prune))
     if k == "rep":
         if op[2] in ref.nodes:
-            try:
-                g.replace(op[1], op[2])
-            except ValueError:
-                return True  # refused; the caller checks that nothing changed
-            return False
-        # direct form of the statement: the new node inherits exactly the edges of the old one
-        old_s, old_p = g.successors(op[1]), g.predecessors(op[1])
-        r = g.replace(op[1], op[2])
+            return ("ValueError",)
+        inherited = (ref.succ(op[1]), ref.pred(op[1]))
         ref.replace(op[1], op[2])
-        if g.successors(op[2]) != old_s or g.predecessors(op[2]) != old_p:
+        return ("replaced",) + inherited + inherited
+    return ("promoted", ref.promote(op[1]), 0, True)
+
+
+def _agree(obs, ref, dag) -> bool:
+    """The observation of the real graph equals the reference, and its two views mirror each other."""
+    if obs is None:
+        return False
+    nodes, ind, outd, succ, pred, empty, sources, sinks = obs
+    if nodes != ref.nodes or _s(ind) != ref.nodes or _s(outd) != ref.nodes:
+        return False
+    for n in nodes:
+        if succ[n] != ref.succ(n) or pred[n] != ref.pred(n):
             return False
-        return r is None
+        if ind[n] != len(pred[n]) or outd[n] != len(succ[n]):
+            return False
+        for m in succ[n]:  # mirror, from the real object's answers alone
+            if m not in nodes or n not in pred[m]:
+                return False
+        for m in pred[n]:
+            if m not in nodes or n not in succ[m]:
+                return False
+    if empty != (len(ref.nodes) == 0):
+        return False
+    if dag:
+        if sources != {n for n in ref.nodes if not ref.pred(n)}:
+            return False
+        if sinks != {n for n in ref.nodes if not ref.succ(n)}:
+            return False
+    return True
+
+
+# ---------------------------------------------------------------- the real code (runs under the tracer)
+
+
+def _build_real(fam, n, bits):
+    g = DirectedAcyclicGraph("g") if fam == "dag" else DirectedGraph("g")
+    for i in range(n):
+        g.add(i)
+    for (i, j), b in zip(_edge_pairs(fam, n), bits):
+        if b:
+            g.add(i, j)
+    return g
+
+
+def _observe(g, dag):
+    """Everything the public API shows, copied into native containers."""
+    nodes = _s(g.get_nodes())
+    ind = {k: v for k, v in g.in_degree().items()}
+    outd = {k: v for k, v in g.out_degree().items()}
+    succ, pred = {}, {}
+    for n in nodes:
+        if n not in ind or n not in outd:
+            return None  # a node known to one view only
+        succ[n] = _s(g.successors(n))
+        pred[n] = _s(g.predecessors(n))
+    sources = _s(g.get_sources()) if dag else None
+    sinks = _s(g.get_sinks()) if dag else None
+    return (nodes, ind, outd, succ, pred, g.empty(), sources, sinks)
+
+
+def _real_step(g, op, prune):
+    """Run one operation on the real graph; return what it showed."""
+    k = op[0]
+    if k == "add":
+        r = g.add(op[1]) if len(op) == 2 else g.add(op[1], op[2])
+        return ("none",) if r is None else ("value",)
+    if k == "rm":
+        if len(op[1]) == 1:
+            return ("removed", _s(g.remove_node(op[1][0], prune_dead_end=prune)))
+        return ("removed", _s(g.remove_nodes(list(op[1]), prune_dead_end=prune)))
+    if k == "rep":
+        old_s, old_p = _s(g.successors(op[1])), _s(g.predecessors(op[1]))
+        try:
+            r = g.replace(op[1], op[2])
+        except ValueError:
+            return ("ValueError",)
+        if r is not None or not g.contains(op[2]):
+            return ("value",)
+        # direct form of the statement: the new node has exactly the edges the old one had
+        return ("replaced", old_s, old_p, _s(g.successors(op[2])), _s(g.predecessors(op[2])))
     if k == "prom":
-        got = g.promote_to_source(op[1])
-        want = ref.promote(op[1])
-        # direct form of the statement: no incoming edge is left, the node itself survives
-        if len(g.predecessors(op[1])) != 0 or op[1] not in g.get_sources():
-            return False
-        return set(got) == want
+        got = _s(g.promote_to_source(op[1]))
+        if not g.contains(op[1]):
+            return ("lost",)
+        # direct form of the statement: no incoming edge is left and the node is a source
+        return ("promoted", got, len(g.predecessors(op[1])), op[1] in _s(g.get_sources()))
     raise AssertionError(op)
 
 
-# ---------------------------------------------------------------- operation alphabets
+# ---------------------------------------------------------------- operation alphabets / skeleton trees (generator side)
+
+_ALPHA: dict = {}
+_STATIC: dict = {}
+_TREES: dict = {}
 
 
-@functools.lru_cache(maxsize=None)
 def alphabet(fam: str, n: int, level: str) -> tuple:
     """Concrete operations. Node universe U = 0..n (n is the fresh id).
 
-    level 'full'  : every add/remove_node/replace/promote over U, every ordered remove list of 2 or 3 present nodes
-    level 'mid'   : as full, but 3-element remove lists only ascending/descending
-    level 'small' : operations over the nodes {0, 1, n-1, fresh}, remove lists of <= 2
+    level 'full'  : every add/remove_node/replace/promote over U, every ordered remove list of 2..n present nodes
+    level 'mid'   : as full, but remove lists of >= 3 only ascending/descending
+    level 'small' : operations over the nodes {0, n-1, fresh} only, remove lists of <= 2
     """
+    key = (fam, n, level)
+    if key in _ALPHA:
+        return _ALPHA[key]
     U = list(range(n + 1))
     base = list(range(n))
     if level == "small":
-        U = sorted({0, 1, n - 1, n})
+        U = sorted({0, n - 1, n})
         base = [x for x in U if x < n]
     ops = []
     for u in U:
@@ -268,12 +339,14 @@ def alphabet(fam: str, n: int, level: str) -> tuple:
     for a, b in itertools.permutations(base, 2):
         ops.append(("rm", (a, b)))
     if level == "full":
-        for t in itertools.permutations(base, 3):
-            ops.append(("rm", t))
+        for k in range(3, n + 1):
+            for t in itertools.permutations(base, k):
+                ops.append(("rm", t))
     elif level == "mid":
-        for t in itertools.combinations(base, 3):
-            ops.append(("rm", t))
-            ops.append(("rm", t[::-1]))
+        for k in range(3, n + 1):
+            for t in itertools.combinations(base, k):
+                ops.append(("rm", t))
+                ops.append(("rm", t[::-1]))
     for o in U:
         for w in U:
             if o != w:
@@ -281,7 +354,8 @@ def alphabet(fam: str, n: int, level: str) -> tuple:
     if fam == "dag":
         for u in U:
             ops.append(("prom", u))
-    return tuple(ops)
+    _ALPHA[key] = tuple(ops)
+    return _ALPHA[key]
 
 
 def _levels(sched: str) -> tuple:
@@ -289,21 +363,20 @@ def _levels(sched: str) -> tuple:
     return tuple(sched.split(","))
 
 
-@functools.lru_cache(maxsize=None)
 def _static_ok(fam: str, n: int, skel: tuple) -> bool:
-    """Generator-side filter: is there ANY initial graph / flags on which every step of the skeleton is applicable?"""
+    """Generator-side filter: is there an initial graph / flag on which every step of the skeleton is applicable?
+    (probes: empty graph, full graph, each single edge; a skeleton that fails all of them is not generated)"""
+    key = (fam, n, skel)
+    if key in _STATIC:
+        return _STATIC[key]
     m = len(_edge_pairs(fam, n))
     probes = [(0,) * m, (1,) * m]
     probes += [tuple(1 if k == i else 0 for k in range(m)) for i in range(m)]
     dag = fam == "dag"
+    res = False
     for bits in probes:
         for prune in (False, True):
-            ref = Ref()
-            for i in range(n):
-                ref.add(i)
-            for (i, j), b in zip(_edge_pairs(fam, n), bits):
-                if b:
-                    ref.add(i, j)
+            ref = _build_ref(fam, n, bits)
             ok = True
             for op in skel:
                 if not _applicable(ref, op, dag):
@@ -311,60 +384,264 @@ def _static_ok(fam: str, n: int, skel: tuple) -> bool:
                     break
                 _ref_step(ref, op, prune)
             if ok:
-                return True
-    return False
+                res = True
+                break
+        if res:
+            break
+    _STATIC[key] = res
+    return res
 
 
-def _ref_step(ref, op, prune):
-    k = op[0]
-    if k == "add":
-        ref.add(*op[1:])
-    elif k == "rm":
-        ref.remove(op[1], prune)
-    elif k == "rep":
-        if op[2] not in ref.nodes:
-            ref.replace(op[1], op[2])
-    else:
-        ref.promote(op[1])
+def skeleton_tree(fam: str, n: int, sched: str, lo: int, hi: int) -> tuple:
+    """((op, subtree), ...): every generated skeleton whose first operation is alphabet(level 0)[lo:hi].
+
+    Pure generator-side data; the generated harness file calls it at import time (outside the solver) so that the
+    symbolic runs only walk it."""
+    key = (fam, n, sched, lo, hi)
+    if key in _TREES:
+        return _TREES[key]
+    levels = _levels(sched)
+
+    def grow(prefix, candidates):
+        out = []
+        for op in candidates:
+            skel = prefix + (op,)
+            if not _static_ok(fam, n, skel):
+                continue
+            sub = grow(skel, alphabet(fam, n, levels[len(skel)])) if len(skel) < len(levels) else ()
+            out.append((op, sub))
+        return tuple(out)
+
+    _TREES[key] = grow((), alphabet(fam, n, levels[0])[lo:hi])
+    return _TREES[key]
+
+
+def tree_size(tree) -> int:
+    return sum(1 + tree_size(sub) for _, sub in tree)
 
 
 # ---------------------------------------------------------------- the property
 
 
-def prop_tree(fam, n, bits, flags, first, sched) -> bool:
-    """Every skeleton op_1 .. op_k (k <= len(sched)) that starts with alphabet(first level)[first].
+def _explain(*what) -> None:
+    """Diagnostics for the native replay of a counterexample (silent under the solver)."""
+    from crosshair.tracers import is_tracing
 
-    After EVERY operation of every skeleton the real graph must equal the reference
-    (nodes, successors, predecessors, degrees, sources/sinks, mirror) and the value
-    returned by the operation must equal the reference's.
+    if not is_tracing():
+        print("C20 mismatch:", *what)
+
+
+class _Flags:
+    """prune flags, decided by the solver the first time a removal at that position needs one."""
+
+    def __init__(self, flags):
+        self.sym = flags
+        self.val = [None] * len(flags)
+
+    def __getitem__(self, i):
+        if self.val[i] is None:
+            self.val[i] = True if self.sym[i] else False
+        return self.val[i]
+
+
+def prop_tree(fam, n, bits, flags, lo, hi, sched) -> bool:
+    """Every generated skeleton op_1 .. op_k (k <= len(sched)) whose first operation is alphabet(level 0)[lo:hi].
+
+    After EVERY operation of every skeleton the real graph, as seen through its public API, must equal the
+    reference (nodes, successors, predecessors, degrees, sources/sinks), its successor and predecessor views must
+    mirror each other and the value returned by the operation must equal the reference's.
     """
-    levels = _levels(sched)
     dag = fam == "dag"
-    g, ref = _build(fam, n, bits)
-    if not _same(g, ref, dag):
-        return False
-    op1 = alphabet(fam, n, levels[0])[first]
-    return _run(fam, n, bits, flags, levels, dag, (), (op1,))
+    # one solver decision per adjacency bit; from here on the path carries a concrete graph
+    bits = tuple([True if b else False for b in bits])
+    flags = _Flags(flags)
+    obs = _observe(_build_real(fam, n, bits), dag)
+    with NoTracing():
+        if not _agree(obs, _build_ref(fam, n, bits), dag):
+            return False
+        tree = skeleton_tree(fam, n, sched, lo, hi)
+    return _run(fam, n, bits, flags, dag, (), tree)
 
 
-def _run(fam, n, bits, flags, levels, dag, prefix, candidates) -> bool:
+def _run(fam, n, bits, flags, dag, prefix, tree) -> bool:
     depth = len(prefix)
-    for op in candidates:
-        skel = prefix + (op,)
-        if not _static_ok(fam, n, skel):
+    for op, sub in tree:
+        g = _build_real(fam, n, bits)
+        with NoTracing():
+            ref = _build_ref(fam, n, bits)
+        for i, p in enumerate(prefix):  # replay the prefix (checked one level up)
+            f = flags[i] if p[0] == "rm" else None
+            _real_step(g, p, f)
+            with NoTracing():
+                _ref_step(ref, p, f)
+        with NoTracing():
+            go = _applicable(ref, op, dag)
+        if not go:
             continue
-        g, ref = _build(fam, n, bits)
-        for i, p in enumerate(prefix):  # replay the prefix (already checked one level up)
-            _step(g, ref, p, flags[i])
-        if not _applicable(ref, op, dag):
-            continue
-        if not _step(g, ref, op, flags[depth]):
-            return False
-        if not _same(g, ref, dag):
-            return False
-        if depth + 1 < len(levels):
-            if not _run(fam, n, bits, flags, levels, dag, skel, alphabet(fam, n, levels[depth + 1])):
+        f = flags[depth] if op[0] == "rm" else None
+        got = _real_step(g, op, f)
+        obs = _observe(g, dag)
+        with NoTracing():
+            want = _ref_step(ref, op, f)
+            if got != want or not _agree(obs, ref, dag):
+                _explain("initial edges", [e for e, b in zip(_edge_pairs(fam, n), bits) if b], "skeleton",
+                         [_opstr(x) for x in prefix + (op,)], "prune flags", flags.val, "\n  returned", got, "expected", want,
+                         "\n  graph (nodes, in_degree, out_degree, successors, predecessors, empty, sources, sinks)", obs,
+                         "\n  expected nodes", ref.nodes, "edges", sorted(ref.edges))
                 return False
+        if sub and not _run(fam, n, bits, flags, dag, prefix + (op,), sub):
+            return False
+    return True
+
+
+# ---------------------------------------------------------------- GraphMapper on top (token graph of the recovery planner)
+
+MAP_KINDS = ("move", "reptok", "update")
+
+
+def mapper_ops(n: int) -> tuple:
+    """move(t): move_token_to_root(current id of t); reptok(t): replace_token(port of t, new instance of t);
+    update(t): GraphMapper.add(available new instance of t) = replace_token + move_token_to_root + dag_tokens.add."""
+    return tuple((k, t) for k in MAP_KINDS for t in range(n))
+
+
+def _info(t, pid, available):
+    tok = Token(value=t, tag="0." + str(t))
+    tok.persistent_id = pid
+    return ProvenanceToken(instance=tok, is_available=available, port_id=100 + t, port_name="p" + str(t))
+
+
+def _build_mapper(n, bits):
+    """One port and one tag per token, none available: built with the real GraphMapper.add."""
+    m = GraphMapper(None)
+    for t in range(n):
+        m.add(_info(t, t + 1, False))
+    for (i, j), b in zip(_edge_pairs("dag", n), bits):
+        if b:
+            m.add(_info(i, i + 1, False), _info(j, j + 1, False))
+    return m
+
+
+def _build_mapper_ref(n, bits):
+    ref = Ref()
+    for t in range(n):
+        ref.add(t + 1)
+    for (i, j), b in zip(_edge_pairs("dag", n), bits):
+        if b:
+            ref.add(i + 1, j + 1)
+    return ref
+
+
+def _mapper_real_step(m, cur, op, avail):
+    k, t = op
+    if k == "move":
+        r = m.move_token_to_root(cur[t])
+        return ("none",) if r is None else ("value",)
+    new = cur[t] + 10
+    if k == "reptok":
+        r = m.replace_token("p" + str(t), _info(t, new, avail).instance, avail)
+    else:
+        r = m.add(_info(t, new, True))
+    return ("none",) if r is None else ("value",)
+
+
+def _mapper_ref_step(ref, cur, op, avail):
+    """cur: logical token -> current persistent id; cur[("av", t)]: is that instance available."""
+    k, t = op
+    if k == "move":
+        ref.promote(cur[t])
+        return ("none",)
+    if k == "update" and cur.get(("av", t), False):
+        return ("none",)  # GraphMapper keeps an instance that is already available
+    new = cur[t] + 10
+    ref.replace(cur[t], new)
+    if k == "update":
+        ref.promote(new)
+        ref.add(new)
+    cur[t] = new
+    cur[("av", t)] = True if k == "update" else avail
+    return ("none",)
+
+
+def _mirror(obs) -> bool:
+    if obs is None:
+        return False
+    nodes, ind, outd, succ, pred = obs[:5]
+    if _s(ind) != nodes or _s(outd) != nodes:
+        return False
+    for n in nodes:
+        if ind[n] != len(pred[n]) or outd[n] != len(succ[n]):
+            return False
+        for x in succ[n]:
+            if x not in nodes or n not in pred[x]:
+                return False
+        for x in pred[n]:
+            if x not in nodes or n not in succ[x]:
+                return False
+    return True
+
+
+def mapper_tree(n: int, depth: int, lo: int, hi: int) -> tuple:
+    key = ("mapper", n, depth, lo, hi)
+    if key in _TREES:
+        return _TREES[key]
+    ops = mapper_ops(n)
+
+    def grow(prefix, candidates):
+        out = []
+        for op in candidates:  # whether a token is still in the graph is decided at run time
+            skel = prefix + (op,)
+            out.append((op, grow(skel, ops) if len(skel) < depth else ()))
+        return tuple(out)
+
+    _TREES[key] = grow((), ops[lo:hi])
+    return _TREES[key]
+
+
+def prop_mapper(n, bits, avail, lo, hi, depth) -> bool:
+    """GraphMapper built by add(); then every skeleton of <= depth operations of mapper_ops(n) starting in [lo:hi].
+    After every operation dag_tokens equals the reference and both dag_tokens and dcg_ports are mirror-consistent."""
+    bits = tuple([True if b else False for b in bits])
+    avail = True if avail else False
+    m = _build_mapper(n, bits)
+    obs, pobs = _observe(m.dag_tokens, True), _observe(m.dcg_ports, False)
+    with NoTracing():
+        if not _agree(obs, _build_mapper_ref(n, bits), True) or not _mirror(pobs):
+            return False
+        tree = mapper_tree(n, depth, lo, hi)
+    return _run_mapper(n, bits, avail, (), tree)
+
+
+def _run_mapper(n, bits, avail, prefix, tree) -> bool:
+    for op, sub in tree:
+        m = _build_mapper(n, bits)
+        with NoTracing():
+            ref = _build_mapper_ref(n, bits)
+            cur = {t: t + 1 for t in range(n)}
+            go = True
+        for p in prefix:
+            with NoTracing():
+                go = go and cur[p[1]] in ref.nodes
+            if not go:
+                break
+            _mapper_real_step(m, dict(cur), p, avail)
+            with NoTracing():
+                _mapper_ref_step(ref, cur, p, avail)
+        with NoTracing():
+            go = go and cur[op[1]] in ref.nodes  # the token is still part of the provenance graph
+        if not go:
+            continue
+        got = _mapper_real_step(m, dict(cur), op, avail)
+        obs, pobs = _observe(m.dag_tokens, True), _observe(m.dcg_ports, False)
+        with NoTracing():
+            want = _mapper_ref_step(ref, cur, op, avail)
+            if got != want or not _agree(obs, ref, True) or not _mirror(pobs):
+                _explain("token edges", [(i + 1, j + 1) for (i, j), b in zip(_edge_pairs("dag", n), bits) if b], "skeleton",
+                         list(prefix + (op,)), "avail", avail, "\n  dag_tokens", obs, "\n  expected nodes", ref.nodes, "edges",
+                         sorted(ref.edges), "\n  dcg_ports", pobs)
+                return False
+        if sub and not _run_mapper(n, bits, avail, prefix + (op,), sub):
+            return False
     return True
 
 
@@ -373,20 +650,21 @@ def _run(fam, n, bits, flags, levels, dag, prefix, candidates) -> bool:
 IMPORTS = "from harness.C20 import *"
 
 
-def _spec_tree(fam, n, sched, first, fixed, cond):
+def _spec_tree(fam, n, sched, lo, hi, fixed, cond):
     """fixed: dict edge-index -> 0/1 concretely fixed by the generator (partition)."""
     levels = _levels(sched)
     pairs = _edge_pairs(fam, n)
-    op1 = alphabet(fam, n, levels[0])[first]
+    ops = alphabet(fam, n, levels[0])[lo:hi]
     names = [f"e{i}{j}" for (i, j) in pairs]
     sym = [nm for k, nm in enumerate(names) if k not in fixed]
     bits_expr = ", ".join(str(bool(fixed[k])) if k in fixed else nm for k, nm in enumerate(names))
     fl = [f"p{i}" for i in range(len(levels))]
     params = ", ".join(f"{v}: bool" for v in sym + fl)
     part = "".join(str(fixed[k]) for k in sorted(fixed))
-    opname = _opname(op1)
-    name = f"{fam}{n}_L{len(levels)}_{opname}" + (f"_part{part}" if fixed else "")
+    name = f"{fam}{n}_L{len(levels)}_{_opname(ops[0])}" + (f"__{_opname(ops[-1])}" if len(ops) > 1 else "")
+    name += f"_part{part}" if fixed else ""
     cls = "DirectedAcyclicGraph" if fam == "dag" else "DirectedGraph"
+    nsk = tree_size(skeleton_tree(fam, n, sched, lo, hi))
     return Spec(
         name=name,
         group=f"{cls}: skeletons of <= {len(levels)} operations on {n} nodes",
@@ -394,16 +672,23 @@ def _spec_tree(fam, n, sched, first, fixed, cond):
             IMPORTS,
             params,
             [],
-            f"prop_tree({fam!r}, {n}, ({bits_expr},), ({', '.join(fl)},), {first}, {sched!r})",
+            f"prop_tree({fam!r}, {n}, ({bits_expr},), ({', '.join(fl)},), {lo}, {hi}, {sched!r})",
+            extra=f"_TREE = skeleton_tree({fam!r}, {n}, {sched!r}, {lo}, {hi})  # built natively at import",
         ),
         cond=cond,
-        path=60,
+        path=120,
         bound=f"{cls}; initial graph = any subset of the {len(pairs)} edges "
         + ("i->j, i<j" if fam == "dag" else "i->j, i!=j")
         + f" on nodes 0..{n - 1}"
         + (f" (partition: edges {[names[k] for k in sorted(fixed)]} fixed to {part})" if fixed else "")
-        + f"; first operation {_opstr(op1)}; then every continuation of up to {len(levels) - 1} more operation(s) "
-        f"drawn from alphabet level(s) {levels[1:]} (see harness.C20.alphabet); prune flag of each position symbolic",
+        + f"; first operation in [{', '.join(_opstr(o) for o in ops)}]"
+        + (
+            f"; then every continuation of up to {len(levels) - 1} more operation(s) drawn from alphabet level(s) "
+            f"{list(levels[1:])} (harness.C20.alphabet)"
+            if len(levels) > 1
+            else ""
+        )
+        + f"; {nsk} skeletons; prune flag of each position symbolic",
         symbolic=f"{len(sym)} adjacency bits + {len(fl)} prune flags (z3 Bool)",
         targets=T_DAG if fam == "dag" else T_DG,
     )
@@ -425,23 +710,77 @@ def _opstr(op) -> str:
     if k == "add":
         return "add(" + ", ".join(str(x) for x in op[1:]) + ")"
     if k == "rm":
-        return ("remove_node(%d, prune)" % op[1][0]) if len(op[1]) == 1 else f"remove_nodes({list(op[1])}, prune)"
+        return ("remove_node(%d)" % op[1][0]) if len(op[1]) == 1 else f"remove_nodes({list(op[1])})"
     if k == "rep":
         return f"replace({op[1]}, {op[2]})"
     return f"promote_to_source({op[1]})"
 
 
+def _chunks(fam, n, sched, target):
+    """Split the first-operation alphabet into index ranges holding about `target` skeletons each."""
+    ops = alphabet(fam, n, _levels(sched)[0])
+    out, lo, acc = [], 0, 0
+    for i in range(len(ops)):
+        acc += tree_size(skeleton_tree(fam, n, sched, i, i + 1))
+        if acc >= target:
+            out.append((lo, i + 1))
+            lo, acc = i + 1, 0
+    if acc:
+        out.append((lo, len(ops)))
+    return out
+
+
+def _spec_mapper(n, depth, lo, hi, cond):
+    ops = mapper_ops(n)[lo:hi]
+    names = [f"e{i}{j}" for (i, j) in _edge_pairs("dag", n)]
+    params = ", ".join(f"{v}: bool" for v in names + ["avail"])
+    return Spec(
+        name=f"mapper{n}_L{depth}_{ops[0][0]}{ops[0][1]}__{ops[-1][0]}{ops[-1][1]}",
+        group=f"GraphMapper: skeletons of <= {depth} operations on {n} tokens",
+        source=mk_source(
+            IMPORTS,
+            params,
+            [],
+            f"prop_mapper({n}, ({', '.join(names)},), avail, {lo}, {hi}, {depth})",
+            extra=f"_TREE = mapper_tree({n}, {depth}, {lo}, {hi})",
+        ),
+        cond=cond,
+        path=120,
+        bound=f"GraphMapper over {n} tokens (one port and tag each, none available), provenance edges = any subset of i->j, i<j; "
+        f"first operation in {[k + '(' + str(t) + ')' for k, t in ops]}, then up to {depth - 1} more of mapper_ops({n}); "
+        f"{tree_size(mapper_tree(n, depth, lo, hi))} skeletons; availability flag of the replacing token symbolic",
+        symbolic=f"{len(names)} adjacency bits + 1 availability flag (z3 Bool)",
+        targets=T_MAP,
+    )
+
+
 def specs(tier: str):
     out = []
     if tier == "quick":
-        plan = [("dag", 4, "mid,mid", 0, 200), ("cyc", 3, "full,full", 0, 200)]
+        # (family, nodes, alphabet level per position, skeletons per obligation, #adjacency bits fixed per partition, cond)
+        plan = [
+            ("dag", 4, "mid", 18, 0, 400),
+            ("cyc", 3, "full", 20, 0, 400),
+            ("dag", 3, "small,small", 60, 0, 400),
+        ]
+        mplan = [(4, 1, 4, 400), (3, 2, 3, 400)]
     else:
-        plan = [("dag", 5, "full,small", 2, 900), ("dag", 4, "mid,small,small", 0, 900), ("cyc", 4, "mid,small", 4, 900)]
-    for fam, n, sched, nfix, cond in plan:
-        lv = _levels(sched)
-        for first, op in enumerate(alphabet(fam, n, lv[0])):
-            if not _static_ok(fam, n, (op,)):
-                continue
+        plan = [
+            ("dag", 5, "mid", 10, 0, 3000),
+            ("dag", 4, "full", 55, 0, 3000),
+            ("dag", 4, "mid,small", 110, 0, 3000),
+            ("dag", 3, "full,full", 800, 0, 3000),
+            ("dag", 3, "small,small,small", 700, 0, 3000),
+            ("cyc", 3, "full,small", 110, 0, 3000),
+            ("cyc", 4, "small", 20, 3, 3000),
+        ]
+        mplan = [(4, 2, 2, 3000)]
+    for fam, n, sched, target, nfix, cond in plan:
+        for lo, hi in _chunks(fam, n, sched, target):
             for combo in itertools.product((0, 1), repeat=nfix):
-                out.append(_spec_tree(fam, n, sched, first, dict(enumerate(combo)), cond))
+                out.append(_spec_tree(fam, n, sched, lo, hi, dict(enumerate(combo)), cond))
+    for n, depth, per, cond in mplan:
+        k = len(mapper_ops(n))
+        for lo in range(0, k, per):
+            out.append(_spec_mapper(n, depth, lo, min(k, lo + per), cond))
     return out
